@@ -12,4 +12,5 @@ open Charset
 #print axioms same_codec_same_decode
 #print axioms unresolvable_never_decodes
 #print axioms marks_supported
+#print axioms helper_resolves_reportable
 #print axioms C01_decodes_current
